@@ -180,6 +180,8 @@ type Obligation struct {
 	Props  []string
 	Note   string
 	Imprecise bool
+	Clause *Clause
+	Entry  string
 	// results
 	Result string // "unsat"(discharged) | "sat" | "unknown" | "folded"
 	Solver string
